@@ -65,6 +65,11 @@ Visible ==
       [] e.a = "R" /\ e.t = "refresh" -> R_Refresh
       [] e.a = "R" /\ e.t = "ret"     -> /\ rpc = "r_done" /\ \A x \in S2(e.res) : ResOf(x.k) = x.cls
                                          /\ UNCHANGED model
+      [] e.a = "S" /\ e.t = "exists"  -> S_Exists /\ (loose[SeekKey] = "good") = e.found
+      [] e.a = "S" /\ e.t = "dest"    -> S_DestExists /\ (loose[SeekKey] = "good") = e.found
+      [] e.a = "S" /\ e.t = "rename"  -> S_Rename
+      [] e.a = "S" /\ e.t = "open"    -> S_Open /\ (loose[SeekKey] = "good") = e.found
+      [] e.a = "S" /\ e.t = "ret"     -> spc = "s_done" /\ sres = e.r /\ UNCHANGED model
       [] e.a = "P" /\ e.t = "list"    -> P_List
       [] e.a = "P" /\ e.t = "select"  -> P_SelectObs(e.todo)
       [] e.a = "P" /\ e.t = "lock"    -> P_Lock
@@ -95,6 +100,7 @@ Consume == /\ l < Len(Lines)
 Silent == /\ l < Len(Lines)
           /\ \/ (Ln.a = "W" /\ "W" \notin dead /\ (W_Write \/ W_Fsync))
              \/ (Ln.a = "R" /\ (R_ReadPacks \/ R_LooseDone))
+             \/ (Ln.a = "S" /\ S_Write)
           /\ UNCHANGED <<tid, l>> /\ lastActor' = lastActor
 
 CNext == Consume \/ Silent
